@@ -165,6 +165,16 @@ def run(rep, tier):
                     problems.append(("R5", "bytes_for_s:%s" % fname, need, show(b),
                                      "field %s of a %s code object is read with bytes_for_s=%s; the producing version stores %s there" % (
                                          fname, vkey, show(b), "bytes" if need else "text")))
+            # ---- R3 for the code object itself: slot reserved before the first child, filled with the returned object
+            from ..marshal_read import ReaderSummary, ref_behaviour
+            rs = ReaderSummary()
+            rs.returns = [(g, l.value) for g, l in leaves(out) if isinstance(l, Ret)]
+            beh = ref_behaviour(flatten_effects(sp.effects), rs, True)
+            if v2 >= (3, 4):
+                if beh != {"reserve"}:
+                    problems.append(("R3", "code:ref", "reserve", sorted(beh), "t_code does not reserve its reference slot before reading children and fill it with the finished object"))
+                for det, msg in rs.ref_problems:
+                    problems.append(("R3", "code:ref:" + det, "reserve", msg, msg))
             # ---- 3.11+: localsplus split
             if v2 >= (3, 11):
                 pr = check_localsplus(loops, lay["localspluskinds"], attrs)
